@@ -45,7 +45,7 @@ class LogRec:
 
 class Ghost:
     def __init__(self):
-        self.calls = []  # (func, name, dep_name, block_index, chunks_in, chunks_out, state)
+        self.entry = {}  # the parameter values of the run (calls are recorded path-locally in state.ghost)
 
 
 def ceil_div_lemma(ex, st):
@@ -88,7 +88,18 @@ def make_callees(g, naxes):
                 outs.append(SSeq(m, lambda i: z3.IntVal(1), kind="tuple", name=f"out_chunks{ax}"))
             else:
                 outs.append(c)
-        g.calls.append(dict(func=func, name=name, dep_name=dep_name, block_index=block_index, chunks_in=tuple(chunks), chunks_out=tuple(outs), split_every=dict(split_every), axis=axis))
+        # per-call protocol (checked at every call site, on every path): a level that gets a block_index is the last one - it
+        # applies `aggregate` and writes the tree's own name; every other level applies `combine` (or `aggregate` when no
+        # combine was given) and writes a derived name
+        want_inner = g.entry["combine"] if g.entry.get("combine") is not None else g.entry["aggregate"]
+        if block_index is not None:
+            ok = isinstance(func, PartialVal) and func.fn is g.entry["aggregate"] and name is g.entry["name"] and block_index is g.entry["block_index"]
+            ex.oblige(st, z3.BoolVal(bool(ok)), ex._name("protocol.last_level", node), f"line {node.lineno}: the level that gets block_index applies aggregate and writes the tree name")
+        else:
+            ok = isinstance(func, PartialVal) and func.fn is want_inner and name is not g.entry["name"]
+            ex.oblige(st, z3.BoolVal(bool(ok)), ex._name("protocol.inner_level", node), f"line {node.lineno}: a level without block_index applies combine and writes a derived name")
+        rec = dict(func=func, name=name, dep_name=dep_name, block_index=block_index, chunks_out=tuple(outs))
+        st.ghost["calls"] = st.ghost.get("calls", ()) + (rec,)  # path-local
         return (dsk, tuple(outs))
 
     return {"partial_reduce": partial_reduce}
@@ -154,7 +165,6 @@ def tree_reduce_contract(naxes, split_kind, with_combine):
     g = Ghost()
 
     def params(ex):
-        g.calls.clear()
         ex.axioms.extend(pow_axioms())
         chunks = tuple(sym_seq(f"chunks{ax}") for ax in range(naxes))
         x = Record("ArrayLayer", name=z3.String("blockwise_layer"), chunks=chunks)
@@ -164,8 +174,9 @@ def tree_reduce_contract(naxes, split_kind, with_combine):
             se = None
         else:
             se = {ax: z3.Int(f"split_every{ax}") for ax in range(naxes)}
-        return {"x": x, "name": z3.String("name"), "out_dsk": Opaque("graph"), "aggregate": FuncRec("aggregate"), "axis": tuple(range(naxes)), "block_index": z3.Int("block_index"),
-                "split_every": se, "combine": FuncRec("combine") if with_combine else None}
+        g.entry = {"x": x, "name": z3.String("name"), "out_dsk": Opaque("graph"), "aggregate": FuncRec("aggregate"), "axis": tuple(range(naxes)), "block_index": z3.Int("block_index"),
+                   "split_every": se, "combine": FuncRec("combine") if with_combine else None}
+        return dict(g.entry)
 
     def requires(ex, env):
         r = [c.length >= 1 for c in env["x"].fields["chunks"]] + [env["block_index"] >= 0,
@@ -194,15 +205,12 @@ def tree_reduce_contract(naxes, split_kind, with_combine):
         e = env["__entry__"]
         dsk, out_chunks = res
         cl = [(f"one_block_left_along_axis{ax}", out_chunks[ax].length == 1) for ax in range(naxes)]
-        last = g.calls[-1] if g.calls else None
-        cl.append(("last_level_is_a_partial_reduce", z3.BoolVal(last is not None)))
+        calls = env["__state__"].ghost.get("calls", ())
+        last = calls[-1] if calls else None
+        cl.append(("last_level_is_a_partial_reduce_with_block_index", z3.BoolVal(last is not None and last["block_index"] is not None)))
         if last is not None:
-            f = last["func"]
-            cl.append(("last_level_applies_aggregate_and_writes_the_tree_name_at_block_index", z3.BoolVal(isinstance(f, PartialVal) and f.fn is e["aggregate"] and last["name"] is e["name"] and last["block_index"] is e["block_index"])))
             cl.append(("last_level_reads_the_level_before_it", last["dep_name"] == env["agg_dep_name"]))
-        inner = [c for c in g.calls[:-1]]
-        want = e["combine"] if with_combine else e["aggregate"]
-        cl.append(("inner_levels_apply_combine_and_get_no_block_index", z3.BoolVal(all(isinstance(c["func"], PartialVal) and c["func"].fn is want and c["block_index"] is None for c in inner))))
+            cl.append(("what_is_returned_is_what_the_last_level_produced", z3.BoolVal(all(a_ is b_ for a_, b_ in zip(out_chunks, last["chunks_out"])))))
         return cl
 
     c = Contract(qualname="_tree_reduce", file="flox/dask_array_ops.py", prefix=f"C03.tree_reduce.ax{naxes}.{split_kind}.{'combine' if with_combine else 'nocombine'}", params=params, requires=requires, ensures=ensures,
